@@ -40,6 +40,9 @@ func checkC02(p *Prog, r *Report) {
 	c02ReplyStream(p, r)
 	privateFrames(p, r, "C02.private-frames")
 	c02StreamRelease(p, r)
+	// a second frame on a stream is taken by the client as the answer to whatever request it
+	// sends next on that stream id: at most one frame per request is part of C02 as well
+	r.borrow("C01", "C02", func() { c01Activation(p, r) })
 }
 
 func c02Ownership(p *Prog, r *Report) {
